@@ -2,7 +2,7 @@ from dataclasses import dataclass
 
 import numpy as np
 from xdsl.context import Context
-from xdsl.dialects import builtin, memref
+from xdsl.dialects import arith, builtin, memref
 from xdsl.dialects.builtin import AffineMapAttr, ArrayAttr, MemRefType
 from xdsl.ir import Operation
 from xdsl.ir.affine import AffineMap
@@ -38,6 +38,7 @@ class LayoutResolution(RewritePattern):
             return [1 if j == i else 0 for j in range(n)]
 
         access_patterns: list[AffineMap] = []
+        biases: list[int] = []
 
         # Do this for every operand:
         for operand in range(len(op.operands)):
@@ -57,15 +58,29 @@ class LayoutResolution(RewritePattern):
             if access_mem_map.num_symbols != 0:
                 raise RuntimeError("Access patterns with symbols are not supported yet.")
 
+            # the constant part of the map (layout offset, constant index offsets) is not a stride:
+            # it is added to the base pointer of the operand instead
+            bias = access_mem_map.eval([0] * access_mem_map.num_dims, ())[0]
+            biases.append(bias)
+
             strides: list[int] = []
 
             for i in range(access_mem_map.num_dims):
-                strides.append(access_mem_map.eval(generate_one_list(access_mem_map.num_dims, i), ())[0])
+                strides.append(access_mem_map.eval(generate_one_list(access_mem_map.num_dims, i), ())[0] - bias)
 
             access_patterns.append(AffineTransform(np.array([strides]), np.array([0])).to_affine_map())
 
-        new_inputs: list[Operation] = [memref.ExtractAlignedPointerAsIndexOp.get(input) for input in op.inputs]
-        new_outputs = [memref.ExtractAlignedPointerAsIndexOp.get(output) for output in op.outputs]
+        pointer_ops: list[Operation] = []
+        pointers: list[Operation] = []
+        for operand, bias in zip(op.operands, biases):
+            pointer_ops.append(pointer := memref.ExtractAlignedPointerAsIndexOp.get(operand))
+            if bias != 0:
+                bias_op = arith.ConstantOp.from_int_and_width(bias, builtin.IndexType())
+                pointer = arith.AddiOp(pointer, bias_op)
+                pointer_ops.extend([bias_op, pointer])
+            pointers.append(pointer)
+        new_inputs = pointers[: len(op.inputs)]
+        new_outputs = pointers[len(op.inputs) :]
 
         new_patterns = ArrayAttr([AffineMapAttr(map) for map in access_patterns])
 
@@ -78,7 +93,7 @@ class LayoutResolution(RewritePattern):
             op.accelerator,
             op.result_types,
         )
-        rewriter.replace_op(op, [*new_inputs, *new_outputs, access_pattern_op], access_pattern_op.results)
+        rewriter.replace_op(op, [*pointer_ops, access_pattern_op], access_pattern_op.results)
 
 
 @dataclass(frozen=True)
